@@ -260,7 +260,17 @@ func lookupHostFn(cfg *config.Config, notFound gkm.Counter) func(string) *route.
 
 // Returns a matcher function compatible with tcpproxy Matcher from github.com/inetaf/tcpproxy
 func lookupHostMatcher(cfg *config.Config) func(context.Context, string) bool {
-	pick := route.Picker[cfg.Proxy.Strategy]
+	// The matcher only needs the protocol of the matching route. It must not
+	// pick with the configured strategy since the proxy picks again for the
+	// same connection: with round-robin every other slot of the ring would be
+	// used up here and e.g. one of two equally weighted targets never gets
+	// a connection.
+	pick := func(r *route.Route) *route.Target {
+		if len(r.Targets) == 0 {
+			return nil
+		}
+		return r.Targets[0]
+	}
 	return func(ctx context.Context, host string) bool {
 		t := route.GetTable().LookupHost(host, pick)
 		if t == nil {
